@@ -148,7 +148,9 @@ void h_advance_step(void)
 /* 4. bounded stand-in: whole advance() (collectFromBucket + cascadeDown + insertEntry + list ops, all extracted text) on a
  *    2-level wheel of 4 buckets, tick 10, with up to 3 entries placed by the real insertEntry                            */
 #define NB 4
+#ifndef NE
 #define NE 3
+#endif
 #define BTICK 10
 static TimingWheel BW; static WheelLevel BL[2]; static Bucket BB[2][NB]; static TimerEntry BE[NE];
 static size_t b_lvl0[NE]; static int64_t b_dl[NE];
@@ -157,9 +159,12 @@ static void b_setup(size_t n, const int64_t *delay, size_t cur0, size_t cur1, in
 {
   IORA_TRUE = 1; G_divs = 0; G_fired = 0; G_erases = 0; G_loop_iters = 0; G_iter_budget = 1000;
   BW._tickDuration = BTICK; BW._ticksPerWheel = NB; BW._tickMask = NB - 1; BW._numWheels = 2; BW._wheels = BL; BW._freeListHead = NULL;
-  for (unsigned l = 0; l < 2; l++) { BL[l].buckets = BB[l]; for (unsigned b = 0; b < NB; b++) { BB[l][b].head = NULL; BB[l][b].tail = NULL; } }
+  /* (harness loops over buckets/ids are written out so that the unwind bound only has to cover NE list elements) */
+#define B_INIT(l, b) BB[l][b].head = NULL; BB[l][b].tail = NULL;
+  BL[0].buckets = BB[0]; BL[1].buckets = BB[1];
+  B_INIT(0, 0) B_INIT(0, 1) B_INIT(0, 2) B_INIT(0, 3) B_INIT(1, 0) B_INIT(1, 1) B_INIT(1, 2) B_INIT(1, 3)
   BL[0].currentTick = cur0; BL[1].currentTick = cur1;
-  for (unsigned i = 0; i < IORA_NIDS; i++) { G_fired_cnt[i] = 0; G_in_map[i] = 0; }
+  G_fired_cnt[0] = 0; G_fired_cnt[1] = 0; G_fired_cnt[2] = 0; G_fired_cnt[3] = 0; G_in_map[0] = 0; G_in_map[1] = 0; G_in_map[2] = 0; G_in_map[3] = 0;
   for (unsigned i = 0; i < NE; i++) if (i < n) {           /* what schedule() does under the lock */
     BE[i].id = i + 1; BE[i].callback = &BE[i]; BE[i].deadline = now0 + delay[i]; BE[i].prev = NULL; BE[i].next = NULL;
     TimingWheel_insertEntry(&BW, &BE[i], delay[i]);
@@ -191,13 +196,14 @@ static void b_check(size_t n, int64_t now)
   }
   __CPROVER_assert(fired == G_fired && fired + pending == n, "S8 count preserved: fired + pending == scheduled");
   unsigned heads = 0;
-  for (unsigned l = 0; l < 2; l++) for (unsigned b = 0; b < NB; b++) { if (BB[l][b].head != NULL) heads++; __CPROVER_assert((BB[l][b].head == NULL) == (BB[l][b].tail == NULL), "S9 bucket head/tail both null or both set"); }
+#define B_CHK(l, b) if (BB[l][b].head != NULL) heads++; __CPROVER_assert((BB[l][b].head == NULL) == (BB[l][b].tail == NULL), "S9 bucket head/tail both null or both set");
+  B_CHK(0, 0) B_CHK(0, 1) B_CHK(0, 2) B_CHK(0, 3) B_CHK(1, 0) B_CHK(1, 1) B_CHK(1, 2) B_CHK(1, 3)
   __CPROVER_assert(pending != 0 || heads == 0, "S9 no pending entry: every bucket is empty");
 }
 
 void h_bounded_advance(void)
 {
-  size_t n = nondet_size_t(), cur0 = nondet_size_t(), cur1 = nondet_size_t(); int64_t delay[NE], now0 = nondet_i64(), el = nondet_i64();
+  size_t n = nondet_size_t(), cur0 = nondet_size_t(), cur1 = nondet_size_t(); int64_t delay[3], now0 = nondet_i64(), el = nondet_i64();
   for (unsigned i = 0; i < NE; i++) { delay[i] = nondet_i64(); __CPROVER_assume(delay[i] >= -20 && delay[i] <= 700); }
   __CPROVER_assume(n <= NE && cur0 < 2 * NB && cur1 < NB && now0 >= 1000 && now0 <= 100000 && el >= 0 && el < 2 * BTICK);
   b_setup(n, delay, cur0, cur1, now0);
@@ -206,6 +212,8 @@ void h_bounded_advance(void)
   TimingWheel_advanceLocked(&BW, now0 + el, &fl);
   IORA_CANARY("h_bounded_advance: advance returns");
   b_check(n, now0 + el);
+  /* S10 release rules on the whole call: level 0 moved one tick; level 1 moved one cascade step iff level 0 wrapped (level 2 does not exist) */
+  __CPROVER_assert(BL[0].currentTick == cur0 + 1 && BL[1].currentTick == cur1 + ((((cur0 + 1) & (NB - 1)) == 0) ? 1 : 0), "S10 currentTick of level 0 advances by one, of level 1 by one iff level 0 wrapped");
 }
 
 #ifdef IORA_SEARCH
@@ -215,7 +223,7 @@ void h_search(void)
   size_t N = nondet_size_t(), CUR0 = nondet_size_t(), CUR1 = nondet_size_t(); int64_t D0 = nondet_i64(), D1 = nondet_i64(), D2 = nondet_i64(), EL = nondet_i64();
   __CPROVER_assume(N <= NE && CUR0 < 2 * NB && CUR1 < NB && EL >= 0 && EL < 2 * BTICK);
   __CPROVER_assume(D0 >= -20 && D0 <= 700 && D1 >= -20 && D1 <= 700 && D2 >= -20 && D2 <= 700);
-  int64_t delay[NE] = { D0, D1, D2 };
+  int64_t delay[3] = { D0, D1, D2 };
   b_setup(N, delay, CUR0, CUR1, 1000);
   G_loop_iters = 0; G_iter_budget = 2 * NE;      /* one tick step of a terminating advance walks each entry at most once (collect or cascade) plus at most one level-loop round per re-insertion */
   BW._lastAdvanceTime = 0;
